@@ -72,6 +72,21 @@ def annotate_loops(body, loops, exlog):
     return body
 
 
+def annotate_closures(body, closures, exlog):
+    """R5b: a closure `|p| EXPR` named by a //@closure directive becomes `|p| -> (r: T) ensures E { EXPR }`
+    (return name and postcondition added, parameters and body expression unchanged); Verus checks the
+    closure body against that postcondition."""
+    for text, annot in closures:
+        if body.count(text) != 1:
+            raise extract.ExtractError(f"closure `{text}`: expected exactly one match, found {body.count(text)}")
+        m = re.match(r"(\|[^|]*\|)\s*(.+)$", text, re.S)
+        if not m:
+            raise extract.ExtractError(f"closure `{text}` is not of the form |params| expr")
+        body = body.replace(text, f"{m.group(1)} -> {annot.strip()} {{ {m.group(2)} }}")
+        exlog["rules_applied"].append({"where": "closure annotation", "closure": text, "annotation": annot.strip()})
+    return body
+
+
 def build(unit):
     """Instantiate the template. Returns dict(text, extraction log, errors)."""
     lines = open(unit.path).read().split("\n")
@@ -96,6 +111,7 @@ def build(unit):
             d = kv(st)
             clauses, sig, pre, post, drops, wrap = [], "", [], [], [], ""
             loops = []  # [(header text, [invariant clause lines])]
+            closures = []  # [(closure text, annotation)]
             i += 1
             while i < len(lines) and lines[i].strip() != "//@end":
                 l = lines[i].strip()
@@ -113,6 +129,13 @@ def build(unit):
                     wrap = l[len("//@wrap"):].strip()
                 elif l.startswith("//@loop"):
                     loops.append((l[len("//@loop"):].strip(), []))
+                elif l.startswith("//@closure"):
+                    closures.append([l[len("//@closure"):].strip(), ""])
+                elif l.startswith("//@^"):
+                    if not closures:
+                        errors.append(f"{unit.path}:{i+1}: //@^ without //@closure")
+                    else:
+                        closures[-1][1] += " " + l[4:].strip()
                 elif l.startswith("//@~"):
                     if not loops:
                         errors.append(f"{unit.path}:{i+1}: //@~ without //@loop")
@@ -131,6 +154,7 @@ def build(unit):
                     body = extract.transform(body, exlog["rules_applied"], where)
                     body = extract.drop_statements(body, drops, exlog["dropped"], where)
                     body = annotate_loops(body, loops, exlog)
+                    body = annotate_closures(body, closures, exlog)
                     text = sig + "\n" + "\n".join(clauses) + ("\n" if clauses else "") + "{\n" + "\n".join(pre) + ("\n" if pre else "") + body.rstrip() + "\n" + "\n".join(post) + ("\n" if post else "") + "}\n"
                     if wrap:
                         text = wrap + " {\n" + text + "}\n"
@@ -150,6 +174,7 @@ def build(unit):
                     if clauses or d.get("ret"):
                         body = extract.splice_contract(body, d.get("ret", ""), "\n".join(clauses))
                     body = annotate_loops(body, loops, exlog)
+                    body = annotate_closures(body, closures, exlog)
                     text = extract.transform(wpre, [], "") + body + wsuf
                     exlog["items"].append({"kind": "item", "file": d["file"], "path": d["path"],
                                            "lines": [extract.line_of(src, s), extract.line_of(src, e)],
@@ -158,7 +183,12 @@ def build(unit):
                     errors.append(f"empty extraction for {d}")
                 out.append(text)
             except (extract.ExtractError, FileNotFoundError, KeyError, ValueError) as ex:
-                errors.append(f"anchor lost: {ex}")
+                if d.get("optional") == "1":
+                    # an optional item (a helper the unit's main slice calls): when it no longer exists the
+                    # slice either does not call it any more or the unit fails to compile (undecided)
+                    exlog["items"].append({"kind": "optional-item-missing", "file": d.get("file"), "path": d.get("path"), "note": str(ex)})
+                else:
+                    errors.append(f"anchor lost: {ex}")
             continue
         if st.startswith("//@unit"):
             i += 1
